@@ -100,6 +100,17 @@ def run(res, tier, seed, driver_ok):
             lines.append('tm.op ' + line); expect.append((TM, TAA, k))
             forms_hit[name] = forms_hit.get(name, 0) + 1
             res.evaluations += 1
+            # ... and means that pose when it is USED: as the operand of the frame conversions (which read the six-vector)
+            try:
+                Xo = st.objs[idx]
+                Rf = tm([0.4, -0.3, 0.2, 0.2, 0.3, -0.1])
+                for fname, got_, want_ in (('localToGlobal', fsr.localToGlobal(Rf, Xo).gTM(), Rf.gTM() @ T), ('globalToLocal', fsr.globalToLocal(Rf, Xo).gTM(), np.linalg.inv(Rf.gTM()) @ T)):
+                    ang_ = math.acos(max(-1.0, min(1.0, (np.trace(want_[:3, :3]) - 1) / 2)))
+                    if ang_ < math.pi - 0.1 and np.max(np.abs(got_ - want_)) > tol * 4:
+                        bad('ctor-form-in-use:%s:%s' % (name, fname), 'a pose built by constructor form %s does not behave as that pose in %s' % (name, fname),
+                            {'w': list(w), 'p': list(p), 'form': name}, {'maxdiff': G.maxdiff(got_, want_)})
+            except Exception as e:
+                bad('ctor-raises:%s:%s' % (name, type(e).__name__), 'using a pose built by constructor form %s raised %r' % (name, e), {'w': list(w), 'p': list(p)}, None)
             if np.max(np.abs(TM - T)) > tol:
                 bad('ctor-form:%s' % name, 'constructor form %s does not produce the described pose' % name,
                     {'w': list(w), 'p': list(p), 'form': name, 'args': tmh.__dict__.get('x', None) or [x.tolist() if isinstance(x, np.ndarray) else x for x in op]},
